@@ -97,8 +97,10 @@ PROPS["C07"] = dict(
 PROPS["C09"] = dict(
     lean_targets=["Chihaya.Props.C09"],
     props_files=["Chihaya/Props/C09.lean"],
-    streams=[dict(name="C09", quick=12000, thorough=400000)],
-    rule="cases: real udp handleRequest answering spy-logic responses: intervals incl. 0, sub-second, >2^32 s; counts up to 2^32-1; 0..100 peers of either family; "
+    streams=[dict(name="C09", quick=12000, thorough=400000), dict(name="C09T", quick=3000, thorough=100000)],
+    rule="C09T: whole-tracker UDP sequences (real frontend handler, real middleware.Logic with the stock swarm-interaction and response hooks, real memory/Redis store): "
+         "announces of both actions and scrapes of 1..7 infohashes with repeats and unknown swarms under scrape limits 1,2,3,50; oracle on the implementation alone: a scrape "
+         "response holds exactly one 12-byte triple per requested (capped) infohash, an announce response 20+6n or 20+18n bytes; C09: real udp handleRequest answering spy-logic responses: intervals incl. 0, sub-second, >2^32 s; counts up to 2^32-1; 0..100 peers of either family; "
          "both announce actions x requester families; scrapes of 1..51 infohashes with repeats; client and internal logic errors (internal ones carry a unique "
          "secret token that must not appear in the datagram); compared: datagram bytes / error class; non-trivial = every case (a response is produced), distinct op lines",
     trusted=UDP_TRUST + ["BEP 15 client decoder in Props/C09.lean is the specification of 'layout'"], assumptions=[],
@@ -168,8 +170,11 @@ PROPS["C02"] = dict(
 PROPS["C03"] = dict(
     lean_targets=["Chihaya.Props.C03"],
     props_files=["Chihaya/Props/C03.lean"],
-    streams=[dict(name="C03", quick=12000, thorough=400000), dict(name="C08", quick=2000, thorough=50000), dict(name="C09", quick=2000, thorough=50000)],
-    rule=STORE_RULE + "; plus the HTTP and UDP writer streams (peer entry widths per family)", trusted=STORE_TRUST, assumptions=[],
+    streams=[dict(name="C03", quick=12000, thorough=400000), dict(name="C08", quick=2000, thorough=50000), dict(name="C09", quick=2000, thorough=50000),
+             dict(name="C03T", quick=4000, thorough=150000)],
+    rule=STORE_RULE + "; plus the HTTP and UDP writer streams (peer entry widths per family); plus C03T: whole-tracker sequences over both frontends on shared infohashes with IPv4, IPv6 and "
+         "IPv4-mapped sources, client-supplied addresses of either family with spoofing on and off, numwant large enough to list everybody, scrapes from both families; oracle on the implementation "
+         "alone (spoofing off): a response to an IPv4 (or IPv4-mapped) source lists no IPv6 peer and vice versa", trusted=STORE_TRUST, assumptions=[],
 )
 PROPS["C05"] = dict(
     lean_targets=["Chihaya.Props.C05"],
@@ -180,8 +185,8 @@ PROPS["C05"] = dict(
 PROPS["C17"] = dict(
     lean_targets=["Chihaya.Props.C17"],
     props_files=["Chihaya/Props/C17.lean"],
-    streams=[dict(name="C17", quick=18000, thorough=600000)],
-    rule=STORE_RULE + "; the exported gauges are read after every mutating step", trusted=STORE_TRUST, assumptions=["no storage failures"],
+    streams=[dict(name="C17", quick=18000, thorough=600000), dict(name="C04", quick=4000, thorough=100000)],
+    rule=STORE_RULE + "; the exported gauges are read after every mutating step; plus the concurrent stream of C04 (contended same-peer micro-rounds, totals read after each group)", trusted=STORE_TRUST, assumptions=["no storage failures"],
 )
 
 
@@ -375,6 +380,18 @@ def judge_vi_handle(a, impl):
 def judge_trk(a, impl):
     """R2 (DESIGN §7): counts reported in an announce response lie between the swarm's counts
     before and after the announce is applied (scrape counts are exact and compared with the model)."""
+    if a.get("_pid") == "C09":
+        r = judge_udp_layout(a, impl)
+        if r:
+            return r
+    if a.get("_pid") == "C03" and impl.startswith("ok ") and a.get("spoof") == "0" and "src" in a and "n4=" in impl:
+        src = bytes.fromhex(a["src"])
+        v4 = len(src) == 4 or (len(src) == 16 and src[:12] == b"\0" * 10 + b"\xff\xff")
+        o = args_of("x " + impl)
+        if v4 and int(o["n6"]) > 0:
+            return "a response to an IPv4 source lists IPv6 peers"
+        if not v4 and int(o["n4"]) > 0:
+            return "a response to an IPv6 source lists IPv4 peers"
     if not impl.startswith("ok ") or "pre=" not in impl:
         if impl.startswith(("PANIC", "TWO-DATAGRAMS", "AFTER-RAN", "UNDECODABLE", "SENTINEL-LOST")):
             return "request handling failed: " + impl.split(" ")[0]
@@ -397,6 +414,31 @@ def judge_trk(a, impl):
             bump = " (count bump: the store offered nobody, the response holds only the announcer itself and counts it although the swarm does not, or not in that role)" \
                 if (v == hi + 1 and n == 1 and a.get("self") == "1") else ""
             return f"announce response reports {name}={v} but the swarm held {lo}..{hi} before/after this announce{bump}"
+    return None
+
+
+def judge_udp_layout(a, impl):
+    """C09 on the implementation alone: the datagram answering a well-formed request has the BEP 15 size and echoes action and transaction."""
+    if "pkt" not in a or "dgram=" not in impl or a.get("pre", "-") not in ("-", ""):
+        return None  # with extra hooks in the chain the response content is theirs
+    pkt = bytes.fromhex(a["pkt"]) if a["pkt"] != "-" else b""
+    o = args_of("x " + impl)
+    dg = bytes.fromhex(o["dgram"]) if o["dgram"] not in ("-", "") else b""
+    if len(pkt) < 16 or len(dg) < 8:
+        return None
+    act, ract = int.from_bytes(pkt[8:12], "big"), int.from_bytes(dg[0:4], "big")
+    if dg[4:8] != pkt[12:16]:
+        return "response does not echo the request's transaction ID"
+    if ract == 3:
+        return None
+    if ract != act:
+        return f"response action {ract} for request action {act}"
+    if act == 2:
+        body = len(pkt) - 16
+        if body % 20 == 0 and body > 0:
+            n = min(body // 20, int(a.get("maxscrape", "0")) or 50)
+            if len(dg) != 8 + 12 * n:
+                return f"scrape of {body // 20} infohashes (limit {a.get('maxscrape')}) answered with {(len(dg) - 8) / 12:g} triples"
     return None
 
 
